@@ -151,6 +151,8 @@ def exc_kind(e):
         return "hook"
     if isinstance(e, UsageError) or isinstance(e, OSError):
         return "config"
+    if isinstance(e, KeyError):
+        return "internal"
     if isinstance(e, TypeError):
         msg = str(e)
         if msg.startswith("No method"):
@@ -239,7 +241,7 @@ def chain_valid(scn):
 
 # ----------------------------------------------------------------------------------------------- model encoding
 OPC = {"call": 0, "reg": 1, "unreg": 2}
-RK = {0: "ret", 1: "config", 2: "nomethod", 3: "ambig"}
+RK = {0: "ret", 1: "config", 2: "nomethod", 3: "ambig", 4: "internal"}
 
 
 def enc_methods(scn):
